@@ -69,3 +69,35 @@ pub fn digest(s: &str) -> u64 {
     }
     h
 }
+
+/// Equality of Debug renderings where numeric tokens may differ by a relative tolerance (used only under Miri, which
+/// perturbs the last bits of some float intrinsics).
+pub fn same_approx<T: Debug>(a: &T, b: &T, rel: f64) -> bool {
+    let (sa, sb) = (format!("{a:?}"), format!("{b:?}"));
+    let split = |s: &str| -> Vec<String> {
+        let mut out = Vec::new();
+        let mut cur = String::new();
+        let mut num = false;
+        for c in s.chars() {
+            let is_num = c.is_ascii_digit() || c == '.' || c == '-' || (num && (c == 'e' || c == '+'));
+            if is_num != num && !cur.is_empty() {
+                out.push(std::mem::take(&mut cur));
+            }
+            num = is_num;
+            cur.push(c);
+        }
+        if !cur.is_empty() {
+            out.push(cur);
+        }
+        out
+    };
+    let (ta, tb) = (split(&sa), split(&sb));
+    ta.len() == tb.len()
+        && ta.iter().zip(&tb).all(|(x, y)| {
+            x == y
+                || match (x.parse::<f64>(), y.parse::<f64>()) {
+                    (Ok(p), Ok(q)) => (p - q).abs() <= rel * p.abs().max(q.abs()).max(1e-300),
+                    _ => false,
+                }
+        })
+}
